@@ -195,6 +195,8 @@ def fam_put(n, fs=None, tag=''):
         # the parent may be named in any spelling the schema's uuid format
         # admits: canonical, upper case, without dashes
         spelling = symex.choose(3) if isinstance(y, int) else 0
+        with_uuid = symex.choose(3) if spelling == 0 and len(nodes) > 1 \
+            else 0
         minor = app.sym_minor(ctx)
         with build(ctx, par) as w:
             pre = w.dump()
@@ -203,6 +205,12 @@ def fam_put(n, fs=None, tag=''):
                 body['parent_provider_uuid'] = None if y is None else \
                     MISSING if y == 'missing' else (
                         U(y), U(y).upper(), U(y).replace('-', ''))[spelling]
+            # a member PUT does not document: the uuid (its own or another
+            # provider's), which only POST may carry - always refused
+            if with_uuid == 1:
+                body['uuid'] = U(x)
+            elif with_uuid == 2:
+                body['uuid'] = U([n_ for n_ in nodes if n_ != x][0])
             r = app.call('PUT', '/resource_providers/' + U(x), body,
                          version='sym')
             post = w.dump()
@@ -220,6 +228,8 @@ def fam_put(n, fs=None, tag=''):
                 ok = m >= 14
             else:
                 ok = m >= 37
+            if with_uuid:
+                ok = False
             if spelling == 0:
                 expect(ctx, ok, r, 'PUT %d parent %s->%s' % (x, cur, y))
             elif r.status < 400:
